@@ -110,6 +110,22 @@ func init() {
 				fmt.Println(ws.Rel(u), d.Range, d.Message)
 			}
 		}
+		// further args: method rel line char (repeated)
+		for i := 1; i+3 < len(args); i += 4 {
+			rel := args[i+1]
+			line, _ := strconv.Atoi(args[i+2])
+			ch, _ := strconv.Atoi(args[i+3])
+			srv.DidOpen(ws.URI(rel), files[rel])
+			p := tdPos(ws.URI(rel), line, ch)
+			p["context"] = map[string]interface{}{"includeDeclaration": true, "triggerKind": 1}
+			r, err := srv.Request(args[i], p)
+			if err != nil {
+				fmt.Println("error:", err)
+				return 1
+			}
+			out := strings.ReplaceAll(string(r.Result), ws.Root, "$ROOT")
+			fmt.Printf("%s %s %d:%d -> %s\n", args[i], rel, line, ch, truncate(out, 600))
+		}
 		return 0
 	}
 }
